@@ -1373,7 +1373,7 @@ def build_unit(vc_path, repo):
     for nm, content in sorted(byte_lits.items()):
         seq = ', '.join(f'{b}u8' for b in content.encode())
         parts.append(f'// R8: generated accessor for the literal b"{content}" (its body IS the literal)\n'
-                     f'#[verifier::external_body]\npub fn {nm}() -> (r: &\'static [u8]) ensures r@ =~= seq![{seq}] {{ b"{content}" }}\n')
+                     f'#[verifier::external_body]\npub fn {nm}() -> (r: &\'static [u8; {len(content.encode())}]) ensures r@ =~= seq![{seq}] {{ b"{content}" }}\n')
     parts.append('\n} // verus!\nfn main() {}\n')
     res.text = ''.join(parts)
     return res
